@@ -795,10 +795,10 @@ fn main() {
     // with the shape that fails)
     for rep in 0..(if thorough { 2 } else { 1 }) {
         for kind in ['V', 'W', 'M', 'P', 'b', 'c', 'w', 'y', 'z', 'q', 'i', 'p', 'x', 'j', 's'] {
-            for gen in [1u64, 0] {
+            for g in [1u64, 0] {
                 serial += 1;
                 let nreq = if rep == 0 { 12 } else { r.range(8, 40) };
-                emit(&mut out, format!("S {:x} {:x} {} {:x}", serial, gen, kind, nreq));
+                emit(&mut out, format!("S {:x} {:x} {} {:x}", serial, g, kind, nreq));
             }
         }
     }
